@@ -565,7 +565,9 @@ Qed.
    [f_ff_check] of Import.v's [fixes]: false = the code as found, true = as repaired: the stored
    tip is compared with the node's block of that height first, and if it was replaced the next
    block goes through processConnectedBlock before anything is fast-forwarded).
-   The code as found ([before_ff_check]: every earlier repair, not this one).  Batch size 2,
+   The code as found ([before_ff_check]: the repairs made until the defect was found, not this one; with
+   asyncImport's later chain check and without this repair the same restart leaves the rescan retrying
+   for ever instead — observed on the real code).  Batch size 2,
    ff = 2: the wallet is restored on chain A (blocks 1 and 2 pay it 5 and 7); the process stops after
    the first rescan batch (cursor 2); the node abandons blocks 2..4 and grows to height 8 on a
    branch that never pays the wallet; restart: the fast-forward writes the node's sync records on
